@@ -136,7 +136,8 @@ def check_direct(V, c, t, plan):
             # of opposite sign cancel after the listed value was absorbed; seen on the unchanged tree). Anything else is new.
             if kind == 'node' and t['values'][extra] < 1e300:
                 want = t['values'][extra]
-                if abs(v - want) <= 1e-10 * max(abs(want), 1.0):
+                fscale = max([abs(x) for x in t['values'] if abs(x) < 1e300] + [1.0])      # same rule as the other modes: 1e-10 of the largest finite nodal value
+                if abs(v - want) <= 1e-10 * fscale:
                     V.nontrivial(('default-corner-node', c.cid, extra))
                 elif v != v or abs(v) >= 1e270 or v == 0.0:
                     V.violation('surface:max-depth:listed-point-next-to-DBL_MAX-default-corner', dict(detail, got=v, want=want))
